@@ -184,7 +184,7 @@ def gen_node(rng, cls, depth, idn, in_list=False, vt=None, sem="*") -> Dict[str,
 
 # ------------------------------------------------------------------------------------------- building SDK objects
 
-def build(spec):
+def build(spec, hist=False):
     from basyx.aas import model
     from basyx.aas.model import datatypes as dt
 
@@ -213,7 +213,7 @@ def build(spec):
     if c != "AssetAdministrationShell":
         common.update(semantic_id=ref(spec["sem"]), supplemental_semantic_id=[ref(s) for s in spec["supp"]],
                       qualifier=[qual(q) for q in spec["q"]])
-    kids = {s: [build(k) for k in ks] for s, ks in spec.get("kids", {}).items()}
+    kids = {s: [build(k, hist) for k in ks] for s, ks in spec.get("kids", {}).items()}
     i = spec["id"]
     if c == "Property":
         o = model.Property(i, tp(a["vt"]), a["v"], ref(a["vid"]), **common)
@@ -236,7 +236,13 @@ def build(spec):
     elif c == "SubmodelElementCollection":
         o = model.SubmodelElementCollection(i, kids["value"], **common)
     elif c == "SubmodelElementList":
-        o = model.SubmodelElementList(i, getattr(model, a["tv"]), kids["value"], ref(a["semle"]), tp(a["vtle"]), a["or"], **common)
+        if hist and len(kids["value"]) >= 2:
+            # the live application object got its items through a history other than appending: the first item was put in
+            # front last (same content and order; creation order differs)
+            o = model.SubmodelElementList(i, getattr(model, a["tv"]), kids["value"][1:], ref(a["semle"]), tp(a["vtle"]), a["or"], **common)
+            o.value.insert(0, kids["value"][0])
+        else:
+            o = model.SubmodelElementList(i, getattr(model, a["tv"]), kids["value"], ref(a["semle"]), tp(a["vtle"]), a["or"], **common)
     elif c == "Entity":
         o = model.Entity(i, model.EntityType[a["et"]], kids["statement"], a["gid"],
                          [model.SpecificAssetId(n, v) for n, v in a["sids"]], **common)
@@ -262,7 +268,7 @@ def build(spec):
 def build_case(case):
     """-> (live, new, holder|None).  Raises if a spec is not constructible (generator retries)."""
     from basyx.aas import model
-    live = build(case["live"])
+    live = build(case["live"], case.get("hist", False))
     new = build(case["new"])
     holder = None
     h = case.get("holder")
@@ -417,7 +423,7 @@ def gen_case(rng: random.Random) -> Dict[str, Any]:
             if not in_list and rootc not in ("Submodel", "AssetAdministrationShell") and rng.random() < 0.15:
                 new["id"] = rng.choice(["root2", "sibling"]) if holder else "root2"
                 tags.append("root-renamed")
-        case = {"live": live, "new": new, "us": rng.random() < 0.4, "holder": holder, "tags": tags}
+        case = {"live": live, "new": new, "us": rng.random() < 0.4, "holder": holder, "tags": tags, "hist": rng.random() < 0.35}
         try:
             build_case(case)
         except Exception:
